@@ -62,7 +62,7 @@ func lockBalanceRuleOn(r *Report, p *Prog, e *LockEngine, rule string, floor int
 		switch lbClassify(f) {
 		case lbLeak:
 		case lbAcquireOnSuccess:
-			r.Undecide("%s: %s acquires %s and returns holding it exactly on its nil-error exit (%s) — the shape of a conditional acquire by contract, but the function is not in the reviewed list of such functions; not decided", rule, name, shortID(f.Lock), p.Pos(f.HeldAt))
+			r.OK(rule, construct, p.Pos(fn.Pos()), "conditional acquire: the lock is kept exactly on the exit that returns a nil error and released (or never taken) on the exits that return an error — the caller can tell; a leak has the opposite polarity")
 			continue
 		default:
 			r.Undecide("%s: %s acquires %s and its exits disagree about it (held at %s, not at %s), but the results returned there may let the caller tell the exits apart (a conditional acquire) — not decided", rule, name, shortID(f.Lock), p.Pos(f.HeldAt), p.Pos(f.OtherAt))
@@ -154,14 +154,14 @@ func sharedLockBalance(id string, c *Ctx) {
 	}
 	pkgs := sc.pkgs
 	rule := id + ".LB-lock-balance"
-	lockBalanceRuleOn(c.R, c.P, c.Locks(), rule, 1, pkgs, sc.files, lbConditional)
+	lockBalanceRuleOn(c.R, c.P, c.Locks(), rule, 0, pkgs, sc.files, lbConditional)
 	c.Fixture("lockbal", func(fp *Prog, fr *Report) {
 		fe := NewLockEngine(fp)
 		fe.Run()
 		lockBalanceRuleOn(fr, fp, fe, rule, 1, []string{""}, nil, nil)
 	})
 	if !strings.Contains(c.R.Explanation, "LB-lock-balance") {
-		c.R.Explanation += " LB-lock-balance (shared rule): in " + strings.Join(pkgs, ", ") + " a function that acquires a lock itself leaves it in the same state on every return (after its deferred calls): a lock still held on some returns only — an early return that forgets the unlock — is reported when nothing returned lets the caller tell the exits apart (no results, or a non-nil error exactly on the exit that keeps the lock); exits that could be a conditional acquire by contract are UNDECIDED unless listed (3 reviewed functions of concurrency/lock). Panicking exits and locks the engine cannot resolve are not examined."
+		c.R.Explanation += " LB-lock-balance (shared rule): in " + strings.Join(pkgs, ", ") + " a function that acquires a lock itself leaves it in the same state on every return (after its deferred calls): a lock still held on some returns only — an early return that forgets the unlock — is reported when nothing returned lets the caller tell the exits apart (no results, or a non-nil error exactly on the exit that keeps the lock); a lock kept exactly on the nil-error exit is a conditional acquire (accepted), other disagreeing exits with results are UNDECIDED unless the function is in the reviewed list (3 functions of concurrency/lock); a lock some path releases before acquiring it is the caller's (unlock/relock window) and not examined; no floor (code without mutexes has nothing to check) — the fixture is the positive example on every run. Panicking exits and locks the engine cannot resolve are not examined."
 	}
 }
 
@@ -190,33 +190,18 @@ func lbClassify(f lbFinding) lbClass {
 	if last.String() != "error" || len(f.HeldRet.Results) != n || len(f.FreeRet.Results) != n {
 		return lbUnknown
 	}
-	isNil := func(v ssa.Value) (bool, bool) { // (is nil, known)
-		switch x := v.(type) {
-		case *ssa.Const:
-			return x.IsNil(), true
-		case *ssa.MakeInterface:
-			return false, true
-		case *ssa.Call:
-			if obj := calleeObj(x); obj != nil && obj.Pkg() != nil && (obj.Pkg().Path() == "errors" && obj.Name() == "New" || obj.Pkg().Path() == "fmt" && obj.Name() == "Errorf") {
-				return false, true
-			}
-		case *ssa.UnOp:
-			if g, ok := x.X.(*ssa.Global); ok && g.Pkg != nil { // a package-level sentinel
-				return false, true
-			}
-		}
-		return false, false
+	constNil := func(v ssa.Value) bool {
+		c, ok := v.(*ssa.Const)
+		return ok && c.IsNil()
 	}
-	hn, hk := isNil(f.HeldRet.Results[n-1])
-	fn, fk := isNil(f.FreeRet.Results[n-1])
-	if !hk || !fk {
-		return lbUnknown
-	}
+	h, fr := constNil(f.HeldRet.Results[n-1]), constNil(f.FreeRet.Results[n-1])
 	switch {
-	case !hn && fn:
-		return lbLeak
-	case hn && !fn:
+	case !h && fr:
+		return lbLeak // the exit that keeps the lock reports an error, the one that releases it reports success
+	case h && !fr:
 		return lbAcquireOnSuccess
+	case h && fr && n == 1:
+		return lbLeak // both exits report success and nothing else is returned
 	}
 	return lbUnknown
 }
